@@ -107,6 +107,8 @@ CHECKS["C10"] = dict(
 
 CHECKS["C04"] = dict(
         src="checks/c04.cpp", cfg="rel", link="shared", engine="D-envelope-model",
+        aux=[dict(src="checks/c04.cpp", cfg="p29", link="shared", cxxflags=["-DSPQLIOS_Q120_USE_29_BIT_PRIMES"]),
+             dict(src="checks/c04.cpp", cfg="p31", link="shared", cxxflags=["-DSPQLIOS_Q120_USE_31_BIT_PRIMES"])],
         category="model_checking", design_ref="DESIGN.md section 2 (Engine D) and section 4, C04",
         technique="explicit enumeration of an exact-integer abstract envelope model (all sizes, primes, stages, all ell) with conformance of real stage traces obtained by ELF interposition",
         text="The lazy arithmetic of the q120 NTT, iNTT and product kernels is modelled as exact integer upper bounds per (transform, n, prime, "
